@@ -257,6 +257,31 @@ def fam_constarg(tier, rng):
 FAMILIES = [fam_const, fam_suffix, fam_chain, fam_shadow, fam_constarg, fam_length, fam_mixed]
 
 
+def fam_dotted(tier, rng):
+    """constant names containing dots, bare and with a suffix, used in later constant expressions and in statements"""
+    out = []
+    L = [num(v) for v in [1, 2, 7, 100, 30000, -3]]
+    for nm in ("A.B", "A.B.C", "X.Y2"):
+        for sfx in ("", "I", "L", "D", "$"):
+            for k in range(3):
+                b = B()
+                if sfx == "$":
+                    e1 = bin_("+", lit("$", "ab"), lit("$", "c%d" % k))
+                    e2 = bin_("+", cref(nm, sfx), lit("$", "z"))
+                    e3 = bin_("+", par(cref(nm, sfx)), cref(nm))
+                else:
+                    e1 = bin_(rng.choice(OPS), rng.choice(L), rng.choice(L))
+                    e2 = bin_(rng.choice(OPS), cref(nm, sfx), rng.choice(L))
+                    e3 = bin_("+", par(cref(nm, sfx)), cref(nm))
+                main = [b.const(nm, sfx, e1, suffixed=bool(sfx)), b.const("K2", "", e2), b.const("K3", "", e3),
+                        b.print(cref(nm), cref(nm, sfx), cref("K2"), cref("K3"))]
+                out.append({"fam": "dotted:%s/%s" % (nm, sfx), "prog": prog(main)})
+    return out
+
+
+FAMILIES.append(fam_dotted)
+
+
 def cases(tier, seed):
     rng = random.Random(seed)
     out = []
